@@ -105,9 +105,10 @@ inline std::string formatInstantNs(i128 ns, int fracDigits) {
 
 // ---- strict recognisers ----------------------------------------------------------------------------------------
 inline bool isDig(char c) { return c >= '0' && c <= '9'; }
-// reads 1.. digits into an i128 (saturating at ~10^37, which is beyond every magnitude used)
+// reads 1.. digits into an i128, saturating near 10^21 (beyond 2^64, i.e. "too big" for every parser, and small enough
+// that years and week counts of that size still convert to nanoseconds inside __int128)
 inline bool readNum(const std::string& s, size_t& p, i128& v, int& nd) {
-	v = 0; nd = 0; const i128 cap = pow10(36);
+	v = 0; nd = 0; const i128 cap = pow10(20);
 	while (p < s.size() && isDig(s[p])) { if (v < cap) v = v * 10 + (s[p] - '0'); ++p; ++nd; }
 	return nd > 0;
 }
